@@ -229,29 +229,49 @@ Qed.
 
 (* ====================================================================== the round trip *)
 Theorem parse_write_indented d : wf_tree (TDict d) = true ->
-  exists bs, write Indented d = Ok bs /\ parse bs = Ok d.
+  exists bs, write Indented d = Ok bs /\ parse bs = Ok (untiny_kvs d).
 Proof.
   intros W. exists (wv (Some O) (TDict d)). split; [unfold write; rewrite (wf_not_big _ W); reflexivity|].
   unfold parse. rewrite tokens_of_indented by assumption. apply parse_tokens_container. exact W.
 Qed.
 
 Theorem parse_write_compact d : wf_tree (TDict d) = true ->
-  exists bs, write Compact d = Ok bs /\ parse bs = Ok d.
+  exists bs, write Compact d = Ok bs /\ parse bs = Ok (untiny_kvs d).
 Proof.
   intros W. exists (wentries None d). split; [unfold write; rewrite (wf_not_big _ W); reflexivity|].
   unfold parse. rewrite tokens_of_compact by assumption. apply parse_tokens_bare. exact W.
 Qed.
 
+Lemma parse_write ly d : wf_tree (TDict d) = true -> exists bs, write ly d = Ok bs /\ parse bs = Ok (untiny_kvs d).
+Proof. destruct ly; [apply parse_write_indented|apply parse_write_compact]. Qed.
+
+Lemma notiny_kvs d : notiny (TDict d) = true -> untiny_kvs d = d.
+Proof. intros N. pose proof (notiny_untiny (TDict d) N) as H. rewrite untiny_dict in H. inversion H as [E]. rewrite E. exact E. Qed.
+
+(* without a tiny decimal the tree comes back exactly *)
+Theorem parse_write_exact ly d : wf_tree (TDict d) = true -> notiny (TDict d) = true ->
+  exists bs, write ly d = Ok bs /\ parse bs = Ok d.
+Proof. intros W N. destruct (parse_write ly d W) as (bs & H1 & H2). exists bs. rewrite (notiny_kvs d N) in H2. auto. Qed.
+
 (* what was written is rewritten unchanged after being read (fixture blobs, the embedded engine data of a type layer) *)
-Theorem rewrite_unchanged ly d bs : wf_tree (TDict d) = true ->
+Theorem rewrite_unchanged ly d bs : wf_tree (TDict d) = true -> notiny (TDict d) = true ->
   write ly d = Ok bs ->
   match parse bs with Ok d' => write ly d' | Err e => Err e end = Ok bs.
 Proof.
-  intros W HW. destruct ly.
-  - destruct (parse_write_indented d W) as (bs' & H1 & H2).
-    rewrite HW in H1. inversion H1; subst bs'. rewrite H2. exact HW.
-  - destruct (parse_write_compact d W) as (bs' & H1 & H2).
-    rewrite HW in H1. inversion H1; subst bs'. rewrite H2. exact HW.
+  intros W N HW. destruct (parse_write_exact ly d W N) as (bs' & H1 & H2).
+  rewrite HW in H1. inversion H1; subst bs'. rewrite H2. exact HW.
+Qed.
+
+(* with tiny decimals the text changes once (".0" becomes "0.0") and is stable from the second generation on *)
+Theorem rewrite_stable ly d : wf_tree (TDict d) = true ->
+  exists bs d' bs', write ly d = Ok bs /\ parse bs = Ok d' /\ write ly d' = Ok bs' /\ parse bs' = Ok d' /\
+                    d' = untiny_kvs d.
+Proof.
+  intros W. destruct (parse_write ly d W) as (bs & H1 & H2).
+  assert (W' : wf_tree (TDict (untiny_kvs d)) = true) by (rewrite <- untiny_dict; apply wf_untiny; exact W).
+  destruct (parse_write ly (untiny_kvs d) W') as (bs' & H3 & H4).
+  exists bs, (untiny_kvs d), bs'. repeat split; try assumption.
+  rewrite H4. f_equal. pose proof (untiny_idem (TDict d)) as I. rewrite !untiny_dict in I. inversion I as [E]. rewrite E. exact E.
 Qed.
 
 (* the writers fail only for an Integer beyond CPython's digit limit *)
